@@ -80,6 +80,7 @@ type GhostDecl struct {
 	Sort    string
 	Init    Expr
 	Scratch bool // not subject to frame conditions; havoc'd by every non-pure call
+	File    *SpecFile // resolution context of package-qualified sorts (generated ghosts)
 }
 
 type FuncContract struct {
@@ -106,6 +107,18 @@ type FuncContract struct {
 	Theory string   // "strings": discharge this function's obligations with the native SMT string theory
 	SelectGhost []SelectGhost // ghost updates attached to select cases
 	CallHooks   []CallHook
+	Iterates    *IterSpec
+	IterEnsures []Clause // generated from Iterates; obligations of the iterator function itself only
+}
+
+// IterSpec: `iterates fn over <store key>, <prefix> as <T>` - the function calls its parameter fn once on
+// decode(T, v) for every record (k,v) of the store (as of entry) whose key has the prefix, in key order,
+// until fn returns true, and does nothing else observable.
+type IterSpec struct {
+	Fn            string
+	Store, Prefix Expr
+	StoreSrc, PrefixSrc, Type string
+	Where         string
 }
 
 // CallHook: at the K-th call (source order) of the callee whose short key is Callee
@@ -468,7 +481,7 @@ func parseExpr(src string) (e Expr, err error) {
 var itemKw = map[string]bool{"func": true, "extern": true, "spec": true, "axiom": true, "lemma": true,
 	"property": true, "opaque": true, "ghost": true, "theory": true, "import": true, "bind": true}
 var clauseKw = map[string]bool{"requires": true, "ensures": true, "modifies": true, "loop": true, "call": true,
-	"nopanic": true, "trusted": true, "pure": true, "cut": true, "induction": true, "fresh": true, "trigger": true, "uses": true, "auto": true, "select": true, "oncall": true, "onrecv": true}
+	"nopanic": true, "trusted": true, "pure": true, "cut": true, "induction": true, "fresh": true, "trigger": true, "uses": true, "auto": true, "select": true, "oncall": true, "onrecv": true, "iterates": true}
 
 type rawLine struct {
 	kw    string
@@ -831,6 +844,36 @@ func parseSpecFile(path string) (*SpecFile, error) {
 			k, _ := strconv.Atoi(m[1])
 			ci, _ := strconv.Atoi(m[2])
 			cur.SelectGhost = append(cur.SelectGhost, SelectGhost{Select: k, Case: ci, Ghost: m[3], E: e, Src: l.text, Where: l.where})
+		case "iterates":
+			m := regexp.MustCompile(`^([A-Za-z_][A-Za-z0-9_]*)\s+over\s+(.*),\s*(.*)\s+as\s+([A-Za-z_][A-Za-z0-9_.]*)$`).FindStringSubmatch(strings.TrimSpace(l.text))
+			if cur == nil || m == nil {
+				return nil, fmt.Errorf("%s: bad iterates clause (iterates fn over <store>, <prefix> as <T>)", l.where)
+			}
+			st, err := parseExpr(m[2])
+			if err != nil {
+				return nil, fmt.Errorf("%s: %v", l.where, err)
+			}
+			pf, err := parseExpr(m[3])
+			if err != nil {
+				return nil, fmt.Errorf("%s: %v", l.where, err)
+			}
+			cur.Iterates = &IterSpec{Fn: m[1], Store: st, Prefix: pf, StoreSrc: m[2], PrefixSrc: m[3], Type: m[4], Where: l.where}
+			lg := "CbArg_" + strings.NewReplacer(".", "_").Replace(m[4])
+			tmpl := []string{
+				"[iter_count] 0 <= CbN - old(CbN) && CbN - old(CbN) <= enumLen(old(KVhas)[@S@], @P@)",
+				"[iter_args] forall j: int :: 0 <= j && j < CbN - old(CbN) ==> " + lg + "[old(CbN)+j] == decode(" + m[4] + ", old(KVval)[@S@][enumKey(old(KVhas)[@S@], @P@, j)])",
+				"[iter_nostop] forall j: int :: 0 <= j && j < CbN - old(CbN) - 1 ==> !CbRes[old(CbN)+j]",
+				"[iter_end] CbN - old(CbN) == enumLen(old(KVhas)[@S@], @P@) || (CbN - old(CbN) > 0 && CbRes[CbN-1])",
+			}
+			for _, t := range tmpl {
+				t = strings.ReplaceAll(strings.ReplaceAll(t, "@S@", m[2]), "@P@", "("+m[3]+")")
+				c, err := parseClause(rawLine{text: t, where: l.where})
+				if err != nil {
+					return nil, fmt.Errorf("%s: generated iterates clause: %v", l.where, err)
+				}
+				cur.IterEnsures = append(cur.IterEnsures, c)
+			}
+			sf.Ghosts = append(sf.Ghosts, GhostDecl{Name: lg, Sort: "map[int]" + m[4], File: sf})
 		case "oncall", "onrecv":
 			// oncall <callee> <k> ghost G := e | oncall <callee> <k> assert e | onrecv <k> ghost G := e
 			txt := l.text
